@@ -243,7 +243,7 @@ theorem fromListLoop_lanelets (ls : List Lanelet) : ∀ (n : Net),
 
 theorem map_relabel_addr (f : Nat → Nat) (ls : List Lanelet) :
     (ls.map (relabelL f)).map (·.poly.addr) = (ls.map (·.poly.addr)).map f := by
-  simp [relabelL, List.map_map, Function.comp_def]
+  simp [relabelL, Lanelet.poly, List.map_map, Function.comp_def]
 
 theorem map_relabel_id (f : Nat → Nat) (ls : List Lanelet) :
     (ls.map (relabelL f)).map (·.id) = ls.map (·.id) := by
@@ -261,7 +261,7 @@ theorem sync_fromList (f : Nat → Nat) (hf : Function.Injective f) (ls : List L
 theorem sync_copy {n : Net} (f : Nat → Nat) (hf : Function.Injective f) (hb : Buffered n) : Sync (copyNet f n) := by
   apply sync_create
   refine ⟨?_, ?_, ?_⟩
-  · simp [hb.1, relabelL, List.map_map, Function.comp_def]
+  · simp [hb.1, relabelL, Lanelet.poly, List.map_map, Function.comp_def]
   · rw [map_relabel_id]; exact hb.2.1
   · rw [map_relabel_addr]; exact hb.2.2.map hf
 
@@ -339,5 +339,120 @@ theorem nodup_dedupInto (xs : List Obst) : ∀ (res : List Obst), res.Nodup → 
     · rename_i hx
       apply ih
       exact List.nodup_append.mpr ⟨h, by simp, by intro a ha b hb; simp at hb; subst hb; intro e; exact hx (e ▸ ha)⟩
+
+/-! ### operation sequences: vocabulary of the property theorems -/
+
+/-- Admissible operation in a state: a lanelet that is added brings a polygon object of its own (Python: a live
+    object has a unique `id`); a copy yields fresh distinct objects. -/
+def Adm (n : Net) : Op → Prop
+  | .add l _ => l.poly.addr ∉ n.lanelets.map (·.poly.addr)
+  | .remove _ _ => True
+  | .addFrom ls => (ls.map (·.poly.addr)).Nodup ∧ ∀ l ∈ ls, l.poly.addr ∉ n.lanelets.map (·.poly.addr)
+  | .copy f => Function.Injective f
+
+/-- Every operation of a sequence is admissible in the state it is applied to. -/
+def AdmSeq : Net → List Op → Prop
+  | _, [] => True
+  | n, o :: os => Adm n o ∧ ∀ n', step n o = .ok n' → AdmSeq n' os
+
+/-- The operation ends with a rebuilt index (or changes nothing). -/
+def rebuilds : Op → Bool
+  | .add _ r => r
+  | .remove _ r => r
+  | .addFrom _ => true
+  | .copy _ => true
+
+/-- The operation certainly rebuilds the index in state `n`. -/
+def refreshes (n : Net) : Op → Prop
+  | .add l r => r = true ∧ l.id ∉ n.lanelets.map (·.id)
+  | .remove _ r => r = true
+  | .addFrom _ => True
+  | .copy _ => True
+
+
+theorem run_append (ops : List Op) : ∀ (n n1 : Net) (o : Op), run n ops = .ok n1 →
+    run n (ops ++ [o]) = step n1 o := by
+  induction ops with
+  | nil => intro n n1 o h; simp only [run] at h; cases h; simp only [List.nil_append, run]; cases step n o <;> rfl
+  | cons o' os ih =>
+    intro n n1 o h
+    simp only [List.cons_append, run] at h ⊢
+    cases hs : step n o' with
+    | error e => rw [hs] at h; cases h
+    | ok n2 => rw [hs] at h; simp only []; exact ih n2 n1 o h
+
+theorem admSeq_append (ops : List Op) : ∀ (n n1 : Net) (o : Op), AdmSeq n (ops ++ [o]) → run n ops = .ok n1 → Adm n1 o := by
+  induction ops with
+  | nil => intro n n1 o h hr; simp only [run] at hr; cases hr; exact h.1
+  | cons o' os ih =>
+    intro n n1 o h hr
+    simp only [run] at hr
+    cases hs : step n o' with
+    | error e => rw [hs] at hr; cases hr
+    | ok n2 => rw [hs] at hr; exact ih n2 n1 o (h.2 n2 hs) hr
+
+theorem admSeq_prefix (ops : List Op) : ∀ (n : Net) (o : Op), AdmSeq n (ops ++ [o]) → AdmSeq n ops := by
+  induction ops with
+  | nil => intro _ _ _; trivial
+  | cons o' os ih => intro n o h; exact ⟨h.1, fun n' hn' => ih n' o (h.2 n' hn')⟩
+
+
+/-! ### lookups: list form and the scan of the lanelets -/
+
+/-- List form (tree order = insertion order in the model; `STRtree.query` promises no order, so the property theorems
+    in `CRProps/C06.lean` only use membership and `Nodup`).  `within` is arbitrary here; it is instantiated there. -/
+theorem find_eq_scan (within : List Pt → Pt → Bool) (n : Net) (hs : Sync n) (pts : List Pt) :
+    findByPosition within n pts =
+      .ok (pts.map (fun p => (n.lanelets.filter (fun l => within l.poly.ring p)).map (·.id))) := by
+  unfold findByPosition
+  rw [tree_sync hs]
+  exact mapM_ok _ _ _ (fun p _ => scan_sync hs (fun ring => within ring p))
+
+/-- The same for `find_lanelet_by_shape` with a Circle / Polygon / Rectangle. -/
+theorem findShape_eq_scan (meets : List Pt → Prim → Bool) (n : Net) (hs : Sync n) (s : Prim) :
+    findByShape meets n (.prim s) = .ok ((n.lanelets.filter (fun l => meets l.poly.ring s)).map (·.id)) := by
+  unfold findByShape findPrim
+  rw [tree_sync hs]
+  exact scan_sync hs (fun ring => meets ring s)
+
+
+/-- The ids of the lanelets satisfying `P`, in the order of the network. -/
+def scanIds (n : Net) (P : Lanelet → Bool) : List Int := (n.lanelets.filter P).map (·.id)
+
+theorem scanIds_spec {n : Net} (hb : Buffered n) (P : Lanelet → Bool) :
+    (scanIds n P).Nodup ∧ ∀ i, i ∈ scanIds n P ↔ ∃ l ∈ n.lanelets, l.id = i ∧ P l = true := by
+  refine ⟨hb.2.1.sublist (List.Sublist.map _ List.filter_sublist), fun i => ?_⟩
+  simp only [scanIds, List.mem_map, List.mem_filter]
+  constructor
+  · rintro ⟨l, ⟨hl, hp⟩, rfl⟩; exact ⟨l, hl, rfl, hp⟩
+  · rintro ⟨l, hl, rfl, hp⟩; exact ⟨l, ⟨hl, hp⟩, rfl⟩
+
+theorem mem_appendNew (res ids : List Int) (i : Int) : i ∈ appendNew res ids ↔ i ∈ res ∨ i ∈ ids := by
+  induction ids generalizing res with
+  | nil => simp [appendNew]
+  | cons a as ih =>
+    simp only [appendNew, ih, List.mem_cons]
+    by_cases h : a ∈ res
+    · simp only [h, if_true]
+      constructor
+      · rintro (h1 | h1) <;> [exact Or.inl h1; exact Or.inr (Or.inr h1)]
+      · rintro (h1 | h1 | h1)
+        · exact Or.inl h1
+        · subst h1; exact Or.inl h
+        · exact Or.inr h1
+    · simp only [h, if_false, List.mem_append, List.mem_singleton]
+      tauto
+
+theorem nodup_appendNew (res ids : List Int) (h : res.Nodup) : (appendNew res ids).Nodup := by
+  induction ids generalizing res with
+  | nil => simpa [appendNew]
+  | cons a as ih =>
+    simp only [appendNew]
+    apply ih
+    by_cases ha : a ∈ res
+    · simpa [ha] using h
+    · simp only [ha, if_false]
+      exact List.nodup_append.mpr ⟨h, by simp, by intro x hx y hy; simp at hy; subst hy; intro hxy; exact ha (hxy ▸ hx)⟩
+
 
 end CR.Index
